@@ -13,6 +13,7 @@ LAWS = [
     ("unit entry equals entry", "(|Dw| [Dw unit entry] != [Dw entry]) 1"),
     ("unit DIEs are root child*", "unit (|U| [U entry offset] (|A| [U root child* offset] (|B| A elem !(== B elem), B elem !(== A elem))))"),
     ("the raw entries of a DIE's unit list it", "entry (|D| D !(unit raw entry (offset == D offset)))"),
+    ("a child has the root of the DIE it was found under", "entry (|D| D child (root != D root))"),
     ("a DIE equals itself and its copy", "entry (|D| (D (!= D), [D] elem (!= D), D (offset != D offset), D (label != D label)))"),
 ]
 LAWS_RAW = [(n, "raw " + q if q.startswith("entry") or q.startswith("unit") else q.replace("(|Dw| ", "(|Dw| ").replace("Dw unit", "Dw raw unit").replace("Dw entry", "Dw raw entry"))
@@ -89,6 +90,8 @@ def run(tier):
                 # speaks in terms of `==': children / parent / root are compared by DIE identity
                 ids = lambda l: [x[0] for x in l]
                 if ids(row[1]) != ids(ek): why = "children"
+                # the children carry the import chain of the DIE they were found under (and what they add to it)
+                elif row[1] != [tuple(x) if not isinstance(x, tuple) else x for x in ek]: why = "children (import chains)"
                 elif ids(row[2]) != ids(ep): why = "parent"
                 elif ids(row[3]) != [er[0]]: why = "root"
                 elif row[4] != (len(ep) == 0): why = "?root"
